@@ -255,6 +255,24 @@ PROPS = {
                       "call starts from the empty string table. Real threads contend first use on every run.",
         "level_note": "Trusted: Lean kernel; the Rust memory model and Once. The model is a state machine of the cells, not of the hardware.",
     },
+    "C19": {
+        "families": [{"name": "witness"}, {"name": "raw"}, {"name": "decl"}],
+        "tags": {"witness": "direct", "witness-control": "indirect", "witness-model": "indirect", "invent": "direct",
+                 "dec-panic": "direct", "dec-alloc": "direct", "abs-diff": "indirect"},
+        "rule": "12 safe-Rust programs under #![forbid(unsafe_code)] (9 that must be rejected by the compiler, 3 well-scoped controls) compiled "
+                "against the working tree; the ref-table ones also run through the Lean ownership machine; raw / tampered inputs for every "
+                "array, byte-vector and derived target compared with the reference decoder (a decoder that returned uninitialised or foreign "
+                "memory shows as a value the reference does not assign)",
+        "trusted": ["rustc's borrow checker as the oracle for 'accepted by the safe API'", "the ownership machine abstracts the API to the lifetime "
+                    "edge of store_ref; the catalogue is finite", "Miri / ASan are not part of the quick check"],
+        "partial": "'all client programs' is explored through a finite catalogue; undefined behaviour after the fact is not exhibited by the model",
+        "level_text": "Proof (partial): with a lifetime bound on store_ref no accepted program ever obtains a reference to a dead object; with the "
+                      "declared signature a five-step program does (proved by evaluation) — this holds of the current code and is the recorded "
+                      "finding D13, demonstrated by witnesses that compile under #![forbid(unsafe_code)]. Byte arrays handed out by the reference "
+                      "decoder are slices of the input of exactly the requested length; arrays are built from exactly N decoded elements.",
+        "level_note": "Known finding D13 (State::store_ref erases the borrow; repair needs an API change) is listed in known_findings.txt by witness "
+                      "name; any other witness that starts compiling is a new violation.",
+    },
     "C11": {
         "families": [{"name": "varint"}],
         "tags": {
